@@ -7,6 +7,7 @@ package internal
 //@   floats real
 //@   requires len(c1) >= 2 && len(c2) >= 2
 //@   ensures res >= 0.0 && res * res == (c1[0]-c2[0])*(c1[0]-c2[0]) + (c1[1]-c2[1])*(c1[1]-c2[1])
+//@   ensures res == sqrt((c1[0]-c2[0])*(c1[0]-c2[0]) + (c1[1]-c2[1])*(c1[1]-c2[1]))
 //@   modifies nothing
 
 //@ func DoLinesOverlap
